@@ -228,13 +228,12 @@ impl Drop for Bomb {
             return;
         }
         let hs = hook_state();
-        let expect = match hs {
-            HookState::InTransit => None,
-            HookState::Installed if self.below > 0 => Some(false),
-            _ => Some(true),
-        };
+        // The statement does not say where a payload is dropped. Today that is after the catching frame has been left
+        // (the second panic then meets the level below it); an implementation that drops it inside the frame, catches
+        // the second panic or never runs this destructor satisfies the statement too. So: no expectation about which
+        // hook sees this message - only about what the thread looks like afterwards.
         let (task, msg) = (self.task, self.msg.clone());
-        g(|s| s.expect.push((task, msg.clone(), expect)));
+        g(|s| s.expect.push((task, msg.clone(), None)));
         BOMB_RECORDED.with(|c| c.set(Some(hs == HookState::Installed && self.below > 0)));
         kernel::count("c19.payload_drop_panicked");
         panic!("{}", msg);
@@ -323,6 +322,9 @@ struct Pending {
     content_expected: bool,
     /// the panic is the one a `Bomb` payload raises when dropped: whether its text is recorded is known only then
     bomb: bool,
+    /// for a bomb: the frame that catches the payload itself (if it returns `Err` instead of letting the destructor's
+    /// panic through, that is just as good)
+    bomb_frame: Option<usize>,
     /// messages of this task's earlier panics: a returned text that contains one of them is stale
     earlier: Vec<String>,
 }
@@ -474,6 +476,13 @@ fn exec_ops(ops: &[Op], m: &mut TaskModel) {
                             Some(mut p) => {
                                 if p.bomb {
                                     p.content_expected = BOMB_RECORDED.with(|c| c.take()).unwrap_or(false);
+                                    if p.bomb_frame == Some(idx) {
+                                        // the frame that caught the payload returned Err: the destructor's panic was
+                                        // not let through (or not raised); nothing to demand about the text
+                                        kernel::count("c19.payload_drop_contained");
+                                        p.frame = Some(idx);
+                                        p.content_expected = false;
+                                    }
                                 }
                                 kernel::count("c19.panic_caught");
                                 if p.frame != Some(idx) {
@@ -539,6 +548,7 @@ fn exec_ops(ops: &[Op], m: &mut TaskModel) {
                     frame: m.frames[..fi].iter().rposition(|c| *c),
                     content_expected: false,
                     bomb: true,
+                    bomb_frame: Some(fi),
                     earlier: m.msgs.clone(),
                 });
                 m.msgs.push(msg.clone());
@@ -591,6 +601,7 @@ fn exec_ops(ops: &[Op], m: &mut TaskModel) {
                     frame,
                     content_expected: hs == HookState::Installed,
                     bomb: false,
+                    bomb_frame: None,
                     earlier: m.msgs.clone(),
                 });
                 if !msg.is_empty() {
